@@ -135,7 +135,7 @@ func runEst(c EstCase) *stat.Failure {
 		}
 	}
 	time.Sleep(60 * time.Millisecond)
-	if q, p, inv := int(sp.VerifQueueLen()), sp.VerifPending(), sp.VerifInvokeNum(); q != 0 || p != 0 || inv != 0 {
+	if q, p, inv := int(sp.VerifQueueLen()), sp.VerifPending(), sp.VerifInvokeNum(); q != 0 || p > 0 || inv != 0 {
 		return stat.Failf("resource-leak", "after all calls returned (transport %s, peer %s): in-flight counter %d, pending-reply table size %d, manager invocation counter %d (all must be 0)", c.Transport, c.Peer, q, p, inv)
 	}
 	return nil
